@@ -227,6 +227,15 @@ def _sigflip(ctx, d, pgpy, key, subj, sig, sigbytes, refsubj, sm):
                 mp = list(s['mpis'])
                 mp[k] = max(0, mp[k] + dv)
                 edits.append(('mpi%d%+d' % (k, dv), body[:s['mpi_offset']] + b''.join(wire.mpi_enc(x) for x in mp)))
+    if s['mpis']:
+        # the same integers plus a multiple of 2**W (W = the algorithm's native width): a longer, different integer whose low octets are the genuine ones
+        widths = [256] if body[2] == 22 else sorted({8 * ((max(x.bit_length() for x in s['mpis']) + 7) // 8) + e for e in (0, 8)})
+        for k in range(len(s['mpis'])):
+            for W in widths:
+                for mul in (1, 0x55, 0xABCDEF):
+                    mp = list(s['mpis'])
+                    mp[k] = mp[k] + (mul << W)
+                    edits.append(('mpi%d+%#x<<%d' % (k, mul, W), body[:s['mpi_offset']] + b''.join(wire.mpi_enc(x) for x in mp)))
     if d['part'] == 0:
         for name, nb in edits:
             raw = wire.new_hdr(2, len(nb)) + nb
